@@ -148,6 +148,31 @@ def run (ctx):
       for f in (pf, hf):
         for cf in btypes.conflicts(f.node, assume={'raw': btypes.B, 'payload': btypes.B}):
           ctx.bad('R-BYTES', f, "`%s`" % cf.text[:60], "%s of %s and %s" % (cf.kind, cf.left, cf.right), (mod, cf.node), 'D5')
+  # ---- D5 over every build method of the packet library -------------------------------------------------
+  n_build = 0
+  for mod in mods:
+    for cls in mod.classes.values():
+      for bn in cls.node.body:
+        if isinstance(bn, ast.FunctionDef) and (bn.name in ('pack', 'hdr', 'packOptions', 'pre_hdr') or bn.name.startswith('_pack')):
+          n_build += 1
+          if bn.name == 'hdr' and 'parse' in cls.methods: continue       # already scanned above
+          for cf in btypes.conflicts(bn, assume={'raw': btypes.B, 'payload': btypes.B}):
+            ctx.bad('R-BYTES', "%s.%s" % (cls.qual, bn.name), "`%s`" % cf.text[:60], "%s of %s and %s: TypeError - this header/option can never be assembled" % (cf.kind, cf.left, cf.right), (mod, cf.node), 'D5')
+          for inner in [x for x in ast.walk(bn) if isinstance(x, ast.FunctionDef) and x is not bn]:
+            for cf in btypes.conflicts(inner, assume={'raw': btypes.B, 'payload': btypes.B}):
+              ctx.bad('R-BYTES', "%s.%s.%s" % (cls.qual, bn.name, inner.name), "`%s`" % cf.text[:60], "%s of %s and %s: TypeError - this header/option can never be assembled" % (cf.kind, cf.left, cf.right), (mod, cf.node), 'D5')
+  ctx.floor('build methods scanned for bytes/str conflicts', n_build, 60)
+  # ---- sibling rule: TLV option classes provide their body; the base adds the type/length header ------------
+  im = repo.mod(PK + '.icmpv6'); base = im.classes.get('NDOptionBase')
+  if base is not None and 'pack' in base.methods and '_pack_body' in norm(base.methods['pack'].node):
+    subs = [c for c in repo.subclasses(base) if c.module is im]
+    ctx.floor('ND option classes', len(subs), 5)
+    for c in subs:
+      over = 'pack' in c.methods
+      body = c.find_method('_pack_body') is not None
+      good = not over and body
+      ctx.ob('R-SIB', c.qual, "ND option provides its body and inherits the type/length framing", good, "_pack_body, no pack override" if good else
+             ("%s overrides pack(): the option is emitted without NDOptionBase.pack()'s type/length header and padding, so it cannot be parsed back" % c.name if over else "%s has no _pack_body" % c.name), c, 'D1')
   ctx.floor('parse/hdr pairs compared', n_pairs, 20)
   ctx.floor("bit-field composites checked", n_bf, 4)
   _checksum(ctx, repo)
